@@ -56,6 +56,9 @@ type linEnv struct {
 	names  map[ssa.Value]string // stable pretty atom names
 	nonneg map[string]bool
 	depth  int
+	// subst: while set, a value found here is linearised as its replacement (one level; used to push a goal
+	// over loop-header phis through one incoming edge)
+	subst map[ssa.Value]ssa.Value
 }
 
 func newLinEnv() *linEnv { return &linEnv{names: map[ssa.Value]string{}, nonneg: map[string]bool{}} }
@@ -147,6 +150,15 @@ func (e *linEnv) lin(v ssa.Value) *linExpr {
 	defer func() { e.depth-- }()
 	if e.depth > 24 {
 		return e.atom(v)
+	}
+	if e.subst != nil {
+		if r, ok := e.subst[v]; ok {
+			saved := e.subst
+			e.subst = nil
+			res := e.lin(r)
+			e.subst = saved
+			return res
+		}
 	}
 	switch t := v.(type) {
 	case *ssa.Const:
@@ -282,6 +294,9 @@ func (e *linEnv) entailsLin(facts []linFact, goal *linExpr) bool {
 }
 
 func isNonNeg(v ssa.Value) bool {
+	if b, ok := v.Type().Underlying().(*types.Basic); ok && b.Info()&types.IsUnsigned != 0 {
+		return true
+	}
 	switch t := v.(type) {
 	case *ssa.Const:
 		k, ok := constIntOf(t)
@@ -316,7 +331,10 @@ type boundSite struct {
 	Buf    ssa.Value
 	Upper  ssa.Value // the value that must be <= len(Buf); nil for constant uppers
 	UpperK int64     // plus this constant
-	Kind   string    // "index" | "slice-high" | "slice-low" | "bigendian"
+	Kind   string    // "index" | "slice-high" | "slice-low" | "bigendian" | "slice-order"
+	// slice-order: Low + LowK <= Upper + UpperK (Buf plays no part); Upper == nil && HighIsLen: Low + LowK <= len(Buf)
+	Low    ssa.Value
+	LowK   int64
 	Proven bool
 	Why    string
 }
@@ -368,7 +386,34 @@ func (s *boundSite) describe() string {
 	if s.Upper != nil {
 		up = exprKeyPretty(s.Upper)
 	}
+	if s.Kind == "slice-order" {
+		lo := ""
+		if s.Low != nil {
+			lo = exprKeyPretty(s.Low)
+		}
+		return fmt.Sprintf("slice-order %s%+d <= %s%+d in %s", lo, s.LowK, up, s.UpperK, exprKeyPretty(s.Buf))
+	}
 	return fmt.Sprintf("%s %s%+d <= len(%s)", s.Kind, up, s.UpperK, exprKeyPretty(s.Buf))
+}
+
+// goalOf builds the linear goal (<= 0) of a site.
+func (s *boundSite) goalOf(env *linEnv) *linExpr {
+	goal := newLin()
+	if s.Kind == "slice-order" {
+		goal.c = s.LowK - s.UpperK
+		if s.Low != nil {
+			goal = goal.add(env.lin(s.Low), 1)
+		}
+		if s.Upper != nil {
+			goal = goal.add(env.lin(s.Upper), -1)
+		}
+		return goal
+	}
+	goal.c = s.UpperK
+	if s.Upper != nil {
+		goal = goal.add(env.lin(s.Upper), 1)
+	}
+	return goal.add(env.lenOf(s.Buf), -1)
 }
 
 // boundSites lists the accesses on []byte buffers in fn.
@@ -397,6 +442,13 @@ func boundSites(fn *ssa.Function) []*boundSite {
 			if t.High != nil {
 				base, k := offsetOf(t.High)
 				out = append(out, &boundSite{Fn: fn, Instr: in, Buf: t.X, Upper: base, UpperK: k, Kind: "slice-high"})
+				if t.Low != nil {
+					// b[lo:hi] also needs lo <= hi
+					lb, lk := offsetOf(t.Low)
+					if !(lb == nil && lk == 0) {
+						out = append(out, &boundSite{Fn: fn, Instr: in, Buf: t.X, Upper: base, UpperK: k, Low: lb, LowK: lk, Kind: "slice-order"})
+					}
+				}
 			} else if t.Low != nil {
 				// buf[lo:] needs lo <= len(buf); when the result only feeds a fixed-width big-endian access that access is the site
 				onlyBE := true
@@ -669,12 +721,7 @@ func (bp *boundsProver) prove(s *boundSite) {
 	f := s.Fn
 	env := newLinEnv()
 	facts := bp.factsAtPoint(f, s.Instr.Block(), nil, env)
-	goal := newLin()
-	goal.c = s.UpperK
-	if s.Upper != nil {
-		goal = goal.add(env.lin(s.Upper), 1)
-	}
-	goal = goal.add(env.lenOf(s.Buf), -1)
+	goal := s.goalOf(env)
 	if env.entailsLin(facts, goal) {
 		s.Proven, s.Why = true, "entailed by the dominating comparisons"
 		return
@@ -682,6 +729,11 @@ func (bp *boundsProver) prove(s *boundSite) {
 	// all-predecessors fallback (merge points after a switch on len(b))
 	if bp.proveAtPreds(f, s, s.Instr.Block(), 0, map[*ssa.BasicBlock]bool{}) {
 		s.Proven, s.Why = true, "entailed on every incoming path"
+		return
+	}
+	// loop invariant: the goal, read over the loop-header phis it mentions, holds on entry and is preserved by every way round
+	if bp.proveInductive(s) {
+		s.Proven, s.Why = true, "inductive over the enclosing loop (holds on entry, preserved by every back edge)"
 		return
 	}
 	// caller-established precondition: the goal mentions only parameters of an unexported function
@@ -713,18 +765,20 @@ func (bp *boundsProver) proveAtPreds(f *ssa.Function, s *boundSite, blk *ssa.Bas
 			extra = append(extra, ef)
 		}
 		facts := bp.factsAtPoint(f, p, extra, env)
-		goal := newLin()
-		goal.c = s.UpperK
 		if s.Upper != nil {
 			if in, ok := s.Upper.(ssa.Instruction); ok && !in.Block().Dominates(p) {
 				return false
 			}
-			goal = goal.add(env.lin(s.Upper), 1)
+		}
+		if s.Low != nil {
+			if in, ok := s.Low.(ssa.Instruction); ok && !in.Block().Dominates(p) {
+				return false
+			}
 		}
 		if in, ok := s.Buf.(ssa.Instruction); ok && !in.Block().Dominates(p) {
 			return false
 		}
-		goal = goal.add(env.lenOf(s.Buf), -1)
+		goal := s.goalOf(env)
 		if env.entailsLin(facts, goal) {
 			continue
 		}
@@ -747,7 +801,7 @@ func (bp *boundsProver) proveByCallers(s *boundSite) bool {
 		return false
 	}
 	// buffer and upper must be parameters
-	bufIdx, upIdx := -1, -1
+	bufIdx, upIdx, lowIdx := -1, -1, -1
 	for i, p := range f.Params {
 		if p == s.Buf {
 			bufIdx = i
@@ -755,8 +809,11 @@ func (bp *boundsProver) proveByCallers(s *boundSite) bool {
 		if s.Upper != nil && p == s.Upper {
 			upIdx = i
 		}
+		if s.Low != nil && p == s.Low {
+			lowIdx = i
+		}
 	}
-	if bufIdx < 0 || (s.Upper != nil && upIdx < 0) {
+	if bufIdx < 0 || (s.Upper != nil && upIdx < 0) || (s.Low != nil && lowIdx < 0) {
 		return false
 	}
 	calls := bp.callers[f]
@@ -793,8 +850,83 @@ func (bp *boundsProver) proveByCallers(s *boundSite) bool {
 			site.Upper = base
 			site.UpperK += k
 		}
+		if s.Kind == "slice-order" {
+			site.LowK = s.LowK
+			if s.Low != nil {
+				l := get(lowIdx)
+				if l == nil {
+					return false
+				}
+				base, k := offsetOf(l)
+				site.Low = base
+				site.LowK += k
+			}
+		}
 		bp.prove(site)
 		if !site.Proven {
+			return false
+		}
+	}
+	return true
+}
+
+// proveInductive: when the goal mentions phis of one loop header H (which dominates the site), show the goal as an
+// invariant of H: on every edge into H the goal with each phi replaced by its incoming value is entailed by the
+// facts at that predecessor, for back edges together with the goal itself (the induction hypothesis).
+func (bp *boundsProver) proveInductive(s *boundSite) bool {
+	var phis []*ssa.Phi
+	seen := map[ssa.Value]bool{}
+	var walk func(v ssa.Value, d int)
+	walk = func(v ssa.Value, d int) {
+		if v == nil || seen[v] || d > 8 {
+			return
+		}
+		seen[v] = true
+		switch t := v.(type) {
+		case *ssa.Phi:
+			phis = append(phis, t)
+		case *ssa.BinOp:
+			walk(t.X, d+1)
+			walk(t.Y, d+1)
+		case *ssa.Convert:
+			walk(t.X, d+1)
+		}
+	}
+	walk(s.Low, 0)
+	walk(s.Upper, 0)
+	if len(phis) == 0 {
+		return false
+	}
+	h := phis[0].Block()
+	for _, p := range phis {
+		if p.Block() != h {
+			return false
+		}
+	}
+	if !(h == s.Instr.Block() || h.Dominates(s.Instr.Block())) {
+		return false
+	}
+	if in, ok := s.Buf.(ssa.Instruction); ok && s.Kind != "slice-order" && !in.Block().Dominates(h) {
+		return false
+	}
+	f := s.Fn
+	for i, pred := range h.Preds {
+		env := newLinEnv()
+		var extra []Fact
+		if ef, ok := edgeFact(pred, h); ok {
+			extra = append(extra, ef)
+		}
+		facts := bp.factsAtPoint(f, pred, extra, env)
+		if h.Dominates(pred) {
+			facts = append(facts, linFact{lf: s.goalOf(env), why: "induction hypothesis"})
+		}
+		env.subst = map[ssa.Value]ssa.Value{}
+		for _, p := range phis {
+			env.subst[p] = p.Edges[i]
+		}
+		goal := s.goalOf(env)
+		env.subst = nil
+		if !env.entailsLin(facts, goal) {
 			return false
 		}
 	}
